@@ -308,6 +308,7 @@ pub fn slices() -> Vec<Slice> {
             ret: true,
             print_stmt: false,
             named_funcs: vec![],
+            ja_loops: false,
             max_stmts: 2,
             max_expr: 5,
         },
